@@ -266,4 +266,15 @@ def kindRank : AnyRule → Nat
   | .sender _ => 3
   | .underride _ => 4
 
+mutual
+/-- No object of the event (outside arrays, which are leaves) has the same key twice — true of every
+`serde_json::Value`. -/
+def KeysUnique : PJ → Prop
+  | .obj kvs => (kvs.map (·.1)).Nodup ∧ KeysUniqueFields kvs
+  | _ => True
+def KeysUniqueFields : List (Text × PJ) → Prop
+  | [] => True
+  | (_, v) :: rest => KeysUnique v ∧ KeysUniqueFields rest
+end
+
 end Ruma.Spec.Push
